@@ -74,6 +74,12 @@ FlowBatchCfgs ==
       s \in {1, 2}, tg \in {t \in [1..3 -> {-1, 0, 1, 2, 3}] : t[1] \in {-1, 2} /\ t[2] \in {-1, 3} /\ t[3] \in {-1, 0}},
       c \in BOOLEAN, c0 \in BOOLEAN}
 
+\* a flow made of batch nodes only, with loops in its table, cancelled from inside an item (C11 through a flow)
+BatchLoopCfgs ==
+  {[Base EXCEPT !.nodes = <<BLeaf(2), BLeaf(1), FlowNode(1)>>, !.top = 3,
+                !.conns = <<ConnSeq(3, << <<1, 1>>, <<1, 2>>, <<2, 1>> >>, tg)>>, !.acts = {1, 2}, !.outs = {"ok", "err"}, !.cancel = TRUE, !.ctx0 = <<c0>>] :
+      tg \in {t \in [1..3 -> {-1, 1, 2}] : t[1] \in {1, 2} /\ t[2] \in {-1, 1}}, c0 \in BOOLEAN}
+
 \* overwriting Connects, a second run of the same flow object, re-connection between the runs
 RerunCfgs ==
   {[Base EXCEPT !.nodes = <<Leaf(TRUE, FALSE, 1), Leaf(FALSE, FALSE, 1), FlowNode(1)>>, !.top = 3,
@@ -120,6 +126,7 @@ Cfgs == CASE Family = "single"       -> SingleCfgs
           [] Family = "flowcancel"   -> FlowCancelCfgs
           [] Family = "rerun"        -> RerunCfgs
           [] Family = "flowbatch"    -> FlowBatchCfgs
+          [] Family = "batchloop"    -> BatchLoopCfgs
           [] Family = "nest"         -> NestCfgs
           [] Family = "nestsmall"    -> NestSmallCfgs
           [] Family = "nesterr"      -> NestErrCfgs
@@ -142,6 +149,7 @@ InvC05 == Terminal => P!C05_OK(cfg, h)
 InvC10 == Terminal => P!C10_OK(cfg, h)
 InvC17 == Terminal => P!C17_OK(cfg, h)
 InvC18 == Terminal => P!C18_OK(cfg, h)
+InvC11E == Terminal => P!C11E_OK(cfg, h)
 
 \* the configuration as JSON-friendly record (sets become sorted lists)
 Export == (DoExport /\ Terminal) => PrintT("SCN " \o ToJson([cfg |-> cfg, h |-> h]))
